@@ -457,7 +457,7 @@ def main(argv: Sequence[str] | None = None) -> int:
             source = format_code(source, preserve=preserve, safe=args.safe)
         finally:
             sys.stdout = sys_stdout
-        print(source)
+        sys.stdout.write(source)  # print would add a line to it
         return 0
 
     filenames = tuple(_iter_python_files(args.paths))
